@@ -38,7 +38,7 @@ prop("C01", ["TAB-1", "TAB-3", "TAB-4", "ENC-1", "ENC-2", "ENC-5", "ENC-7", "WID
      "bytes are emitted as opcode, post-byte, operand.",
      "that every grammar-valid operand string is classified into the right operand class, and value-level correctness for all 2^16 operand values beyond the width/sign facts.",
      ASM_ASSUME)
-prop("C02", ["TAB-2", "LAY-0", "LAY-1", "LAY-3", "LAY-5", "ENC-2", "ENC-3", "WID-1", "REL-3", "DIR-1", "EXP-1", "WID-9"],
+prop("C02", ["TAB-2", "LAY-0", "LAY-1", "LAY-3", "LAY-5", "ENC-2", "ENC-3", "WID-1", "REL-3", "DIR-1", "EXP-1", "WID-9", "REL-5"],
      "table sizes equal opcode length plus operand bytes; per return path of every translate() the bytes emitted equal the size reported and max_size >= size; the passes of "
      "translate_statements run in the order expansion, collection, resolution, translation, sizing, addressing, fix-up, back-patch, each over all statements; the address pass is a single "
      "forward accumulation of code_pkg.size; every store into the symbol table is dominated by the redefinition check and undefined symbols raise; listing and image concatenate the same three fields.",
@@ -49,7 +49,7 @@ prop("C03", ["REL-1", "REL-3", "REL-5", "ENC-1", "ENC-3", "TAB-1", "TAB-2"],
      "that sums max_size over a window covering the displacement including the instruction itself, thresholds 127/128; label+n operands take their index through the address-expression predicate "
      "at all three sites; the PCR offset is target - own address - own size rendered at the chosen width; label,PCR offers post-bytes 8C/8D (9C/9D).",
      "numeric correctness at every distance and for every combination of mutually dependent unsized statements (only margins and identities).", ASM_ASSUME)
-prop("C04", ["EXP-1", "LAY-1", "LAY-3", "WID-3", "WID-6", "ENC-6", "ENC-7", "ESC-1", "REL-3", "REL-5", "WID-8"],
+prop("C04", ["EXP-1", "LAY-1", "LAY-3", "WID-3", "WID-6", "ENC-6", "ENC-7", "ESC-1", "REL-3", "REL-5", "WID-8", "DIR-4"],
      "each operator arm of ExpressionValue.resolve applies its own operator to (left, right) in that order and both operands are looked up independently; symbol collection precedes resolution "
      "over all statements (definition order irrelevant); undefined symbols raise; width predicates and two's-complement modulus follow the field width; statement-level handlers turn arithmetic errors "
      "(division by zero, out-of-range results) into a TranslationError.",
@@ -59,7 +59,7 @@ prop("C05", ["DIR-1", "WID-3", "WID-8", "WID-1", "TAB-1", "TXT-1", "ENC-7", "TXT
      "self-sized lists and strings) or reaches the empty CodePackage; list separators; string delimiters must match; FCC's closing delimiter is the first occurrence after the opening one; "
      "two's-complement rendering at the directive's width.",
      "byte-for-byte content for arbitrary lists and strings; range rejection (recorded finding: renderings are not range-checked).", ASM_ASSUME)
-prop("C06", ["CAS-1", "CAS-3", "CAS-5", "CAS-6", "VF-8"],
+prop("C06", ["CAS-1~:(name|name-source|name-filter|source|field\\d+\\(\\w+\\)|fields|data|continuation|length|pairing)$", "CAS-3", "CAS-5", "CAS-6", "VF-8"],
      "the reader consumes exactly the frames the writer produces: header signature, each header field read at the offset the writer stores it and delivered to the matching CoCoFile field, "
      "name length, where block search resumes, data blocks stepped over by exactly 4 + len + 2 with payload copied from offset 4, EOF frame length; writers never modify the data they are given.",
      "equality of data for all contents and lengths; tolerance of arbitrary foreign tapes.")
@@ -68,44 +68,44 @@ prop("C07", ["DSK-1", "DSK-2", "DSK-3", "DSK-4", "DSK-5", "DSK-12", "DSK-13", "V
      "read/write siblings agree on flags, offsets and lengths and on which file kind gets which; FAT links, terminator C0+sectors, reader masks; stream length computed identically by the three "
      "length functions (with and without trailer), sector and granule counts consistent for every length.",
      "equality of contents for all lengths, arbitrary foreign images; granule-bounded placement of the trailer (recorded finding DSK-5 is not re-derived statically).")
-prop("C08", ["DSK-1", "DSK-2", "DSK-4", "DSK-5", "DSK-6", "DSK-7", "DSK-12", "DSK-13", "DSK-8"],
+prop("C08", ["DSK-1", "DSK-2", "DSK-4", "DSK-5", "DSK-6", "DSK-7", "DSK-12", "DSK-13", "DSK-8", "DSK-3"],
      "image size and track-17 offsets; FAT encoding written and read (links, last-granule marker with 1-9 sectors, free marker FF only); blanking confined to FAT bytes 68-255; allocation only "
      "from granules whose FAT byte is FF, marked before the next search; fill order a permutation of 0..67; implied length (sectors, last-sector bytes) equals the stream length by construction.",
      "chain disjointness and length arithmetic for concrete file sequences.")
-prop("C09", ["VF-1", "VF-4", "VF-6", "VF-8", "CAS-5", "DSK-5", "DSK-7", "DSK-6", "CAS-4", "CAS-3", "DET-2", "DSK-12", "DSK-13", "VF-5", "DSK-8", "CLI-4", "VF-9"],
+prop("C09", ["VF-1", "VF-4", "VF-6", "VF-8", "CAS-5", "DSK-5", "DSK-7", "DSK-6", "CAS-4", "CAS-3", "DET-2", "DSK-12", "DSK-13", "VF-5", "DSK-8", "CLI-4~:(kind|open|save|end):", "VF-9", "DSK-4"],
      "append = list the existing image, append the new file at the end, rebuild the whole list in order into a fresh container; cassette writers only append to the buffer; disk allocation only takes "
      "free granules and free directory slots; a fresh DiskFile owns its own buffer (no shared class-level image); sniffing order disk, cassette, binary with matching kinds.",
      "the property over histories of interleaved add/save/re-open; kind recognition by content (recorded finding VF-6).")
-prop("C10", ["VF-1", "VF-2", "VF-3", "VF-4", "VF-6", "VF-8", "CLI-1", "CLI-3", "VF-5", "CLI-4", "CLI-5", "VF-9"],
+prop("C10", ["VF-1~^save_virtual_file", "VF-2", "VF-3", "VF-4", "VF-6", "VF-8", "CLI-1", "CLI-3", "VF-5", "CLI-4~:(kind|open|save|end):", "CLI-5~:(kind|sequence|append):", "VF-9"],
      "every path to a host write in save_virtual_file takes the false edge of `file_exists and not append_mode`, whose true edge only raises; the only host write is open(name, 'wb') in "
      "SourceFile.write_binary_contents, reached only through write_file from save_virtual_file and writing the whole buffer; file_exists is set exactly under os.path.exists; a kind mismatch raises; "
      "every CLI save site goes construct -> open -> add* -> save(append_mode=args.append) with the container kind of its switch; handlers report the error.",
      "nothing further of the control-flow part; content sniffing of arbitrary bytes is a recorded finding.")
-prop("C11", ["CLI-1", "VF-1", "VF-3", "CAS-3", "CAS-1", "CAS-5", "DSK-2", "DSK-3", "DSK-5", "DSK-12", "DSK-13", "LAY-1", "DET-2", "WID-9", "VF-5", "DSK-8", "CLI-5", "VF-9"],
+prop("C11", ["CLI-1", "VF-1", "VF-3", "CAS-3", "CAS-1", "CAS-5", "DSK-2", "DSK-3", "DSK-5", "DSK-12", "DSK-13", "LAY-1", "DET-2", "WID-10", "VF-5", "DSK-8", "CLI-5", "VF-9"],
      "the single CoCoFile built by assembler.main takes name = NAM or --name, load = exec = origin, data = get_binary_array() of the Program that was assembled, type 02, data type 00; each switch "
      "builds the container of its kind and adds that very object; cassette/disk blocks are dominated by the no-name guard; BinaryFile appends the data only; containers do not consume the data "
      "(the same object is written to several containers).",
      "that listing the produced image returns the program (C06/C07); END operand as entry address.")
-prop("C12", ["WID-1", "WID-3", "WID-8", "WID-5", "WID-6", "LAY-5", "ENC-4", "ENC-5", "ENC-7", "TAB-1", "TAB-2", "TAB-3", "TAB-4", "REL-1", "WID-9"],
+prop("C12", ["WID-1", "WID-3", "WID-8", "WID-5", "WID-6", "LAY-5", "ENC-4", "ENC-5", "ENC-7", "TAB-1", "TAB-2", "TAB-3", "TAB-4", "REL-1", "WID-9", "EXP-2"],
      "modes the instruction lacks are rejected by every operand class; table cells exist only where the CPU has the mode; register recognition: every return path of the indexed encoders is realised "
      "by a grammar-valid operand only (probe spellings outside the grammar must raise); PSH/PUL/TFR/EXG reject unknown, own-stack and mixed-size registers; parse-time numeric limits; the width of "
      "`additional` at every sink against the mode's width.",
      "acceptance/rejection of arbitrary operand strings beyond the probe set and the classification cascade.", ASM_ASSUME)
-prop("C13", ["TERM-1", "ESC-1", "ESC-2", "CLI-1", "REL-3", "LAY-0", "TXT-2"],
+prop("C13", ["TERM-1", "ESC-1", "ESC-2", "CLI-1", "LAY-0", "TXT-2", "INC-1~(read-errors|trail)"],
      "the sizing loop terminates because sizing fixes the size on every path; call cycles reachable from process are bounded (include trail checked, the others triaged); the explicit-raise escape "
      "fixpoint over the resolved call graph leaves only ParseError/TranslationError out of Program.process; every pass is wrapped by a handler that converts any exception into a diagnostic naming "
      "the statement; parse-phase first/last-character accesses are dominated by emptiness checks; the CLI handlers exit non-zero before any save.",
      "termination/robustness on all texts beyond these structural arguments (implicit exceptions inside the parse phase other than the indexed-access pattern).", ASM_ASSUME)
-prop("C14", ["CAS-1", "CAS-4", "CAS-3", "WID-9"],
+prop("C14", ["CAS-1~^(?!.*:(name-source|name-filter|source)$).*", "CAS-4", "CAS-3", "WID-10"],
      "on every path of every block writer: sync 55 3C, type 00/01/FF, length byte equal to the payload count and <= 255, payload fields in format order, checksum byte = (type + length + payload) mod 256 "
      "established by pairing every byte written with a checksum term, trailer 55; data payload byte i = data[i], continuation at the number of bytes written; file order leader, name-file, leader, "
      "data, EOF; only appends.",
      "nothing input-dependent: this property is decided completely under the stated assumptions.", ["data bytes are 0..255 and name characters are single-byte"])
-prop("C15", ["DSK-6", "DSK-7", "DSK-12", "DSK-13", "DSK-4", "VF-1", "DET-2", "DET-3", "CLI-3", "VF-5", "DSK-8"],
+prop("C15", ["DSK-6", "DSK-7", "DSK-12", "DSK-13", "DSK-4", "VF-1", "DET-2", "DET-3", "CLI-3", "VF-5", "DSK-8", "VF-2"],
      "the fill order offers all 68 granules once; allocation only of free granules, exhaustion raises; directory scan covers at least 68 slots and a full directory raises; granule count = "
      "floor(stream/2304)+1 for every stream length; the image is rebuilt in memory before the host file is touched.",
      "exact granule counts for concrete sequences of additions.")
-prop("C16", ["CLI-3", "VF-1", "VF-3", "VF-8", "DET-3", "CAS-3", "CAS-5", "DSK-2", "DSK-3", "DSK-12", "DSK-13", "DSK-4", "VF-5", "DSK-8", "CLI-4", "VF-9"],
+prop("C16", ["CLI-3", "VF-1", "VF-3", "VF-8", "DET-3", "CAS-3", "CAS-5", "DSK-2", "DSK-3", "DSK-12", "DSK-13", "DSK-4", "VF-5", "DSK-8", "CLI-4", "VF-9", "VF-6", "DSK-5"],
      "conversion loops add every listed file itself, in listing order, filtered only by --files, and save once; both sides of the --files comparison carry the same case normalisation; --to_bin "
      "refuses more than one file before any add/save; reader/writer layouts of both containers agree; stream-length arithmetic for all file kinds.",
      "equality of the converted file set for concrete images.")
@@ -114,11 +114,11 @@ prop("C17", ["DET-1", "DET-2", "DET-3", "DET-4", "DET-5", "DET-6"],
      "shared default objects are never mutated; the source-line list is only read; no iteration over sets, no hash/id/time/random/environment reads in the core; no memoisation. Each rule carries "
      "an embedded bad/good canary pair evaluated on every run.",
      "nothing further under the assumption of insertion-ordered dicts.", ["dict insertion order (Python >= 3.7)"])
-prop("C18", ["TXT-1", "EXP-1", "LAY-1", "WID-3", "WID-8", "DIR-1", "REL-1", "REL-5", "ENC-7", "TXT-2"],
+prop("C18", ["TXT-1", "EXP-1", "LAY-1", "WID-3", "WID-8", "DIR-1", "REL-1", "REL-5", "ENC-7", "TXT-2", "LAY-3"],
      "the mnemonic is upper-cased before lookup; the line pattern splits label/mnemonic/operands for any amount of white space; accumulator offsets are recognised by whole-string comparison "
      "(no substring tests on operand text); addresses are prefix-determined (single forward pass); one-byte width only for values <= 255.",
      "the metamorphic relations themselves (relocation, renaming, reformatting) for concrete programs.", ASM_ASSUME)
-prop("C19", ["INC-1", "LAY-0", "LAY-1", "TERM-1"],
+prop("C19", ["INC-1", "LAY-0", "LAY-1~translate_statements:(phases|order)$", "TERM-1~process_mnemonics"],
      "process_mnemonics iterates its input in order, keeps every ordinary statement, splices the recursive parse+expansion of the included file at the INCLUDE's position, opens the operand as "
      "written through the assembly reader, expansion precedes symbol collection; missing files and inclusion cycles raise a TranslationError.",
      "image equality with the spliced program for concrete programs.")
